@@ -198,7 +198,7 @@ def parity8(v):
 
 
 def set_zsp(st, w, res):
-    if bv.is_aff(res):
+    if bv.is_opaque(res):
         st.fl.zf = st.fl.sf = st.fl.pf = None   # undefined in the affine domain: any later use aborts the query
         return
     if bv.is_c(res):
@@ -213,6 +213,9 @@ def set_zsp(st, w, res):
 
 def flags_add(st, w, a, b, res, cin=0):
     set_zsp(st, w, res)
+    if bv.is_opaque(res) or bv.is_opaque(a) or bv.is_opaque(b):
+        st.fl.cf = st.fl.of = None
+        return
     if bv.is_c(a) and bv.is_c(b) and bv.is_c(cin):
         st.fl.cf = (a + b + cin) >> w != 0
         st.fl.of = bool(((a ^ res) & (b ^ res)) >> (w - 1) & 1)
@@ -224,6 +227,9 @@ def flags_add(st, w, a, b, res, cin=0):
 
 def flags_sub(st, w, a, b, res, cin=0):
     set_zsp(st, w, res)
+    if bv.is_opaque(res) or bv.is_opaque(a) or bv.is_opaque(b):
+        st.fl.cf = st.fl.of = None
+        return
     if bv.is_c(a) and bv.is_c(b) and bv.is_c(cin):
         st.fl.cf = a < b + cin
         st.fl.of = bool(((a ^ b) & (a ^ res)) >> (w - 1) & 1)
@@ -551,7 +557,7 @@ def _shift(name):
         n &= 63 if w == 64 else 31
         if n == 0:
             return None
-        aff = bv.is_aff(a)
+        aff = bv.is_opaque(a)
         if name in ("shl", "sal"):
             res = bv.shl(w, a, n)
             cfv = None if aff else (bv.bit(a, w - n) if n <= w else False)
@@ -561,7 +567,7 @@ def _shift(name):
         else:
             res = bv.ashr(w, a, n)
             cfv = None if aff else bv.bit(a, min(n - 1, w - 1))
-        if bv.is_aff(res) or bv.is_aff(a):
+        if bv.is_opaque(res) or bv.is_opaque(a):
             st.fl.zf = st.fl.sf = st.fl.cf = st.fl.of = st.fl.pf = None
         else:
             set_zsp(st, w, res)
@@ -663,6 +669,11 @@ def h_div(ex, st, insn, ops):
     d = rd(ex, st, ops[0], insn, w)
     lo = bv.extract(st.r["rax"], w - 1, 0)
     hi = bv.extract(st.r["rdx"], w - 1, 0)
+    if bv.is_lin(lo) and bv.is_c(d) and d != 0 and bv.is_c(hi) and hi == 0:
+        q, r = ex.div_hook(w, lo, d)
+        st.r["rax"], st.r["rdx"] = bv.zext(w, 64, q), bv.zext(w, 64, r)
+        st.fl.zf = st.fl.sf = st.fl.cf = st.fl.of = st.fl.pf = None
+        return None
     if bv.is_c(d) and d != 0 and bv.is_c(hi) and hi == 0 and not bv.is_c(lo) and not bv.is_aff(lo):
         # symbolic dividend, constant divisor, zero high half: quotient cannot overflow
         dz = z3.BitVecVal(d, w)
